@@ -299,3 +299,5 @@ func propC13() Prop[C13Case] {
 func TestC13(t *testing.T) { Run(t, propC13()) }
 
 func FuzzGenC13(f *testing.F) { RunFuzz(f, propC13()) }
+
+func TestRaceC13(t *testing.T) { RunConcurrent(t, propC13(), 4) }
